@@ -179,6 +179,7 @@ class ProtocolContext:
 
             if timed_out:
                 assert self._cmd is not None, f"{self}: Coding error"  # mypy hint
+                self._cmd_tx_count += 1  # counted here, when it really is re-sent
                 self._send_cmd(self._cmd, is_retry=True)
 
             if isinstance(self._state, IsInIdle):
@@ -262,10 +263,7 @@ class ProtocolContext:
             setattr(self._state, "_prev_state", prev_state)  # noqa: B010
 
         if timed_out:  # isinstance(self._state, WantEcho):
-            assert isinstance(
-                self._cmd_tx_count, int
-            ), f"{self}: Coding error"  # mypy hint
-            self._cmd_tx_count += 1
+            pass  # a retry: the tx_count is incremented by effect_state, if it is re-sent
 
         elif isinstance(self._state, WantEcho):
             assert self._qos is not None, f"{self}: Coding error"  # mypy hint
